@@ -11,7 +11,7 @@ use serde_json::{json, Value};
 use std::collections::{BTreeSet, HashMap};
 use std::io::Write;
 use surf_n_term::{
-    render::TerminalRenderer, Cell, Error, Face, FaceAttrs, FillRule, Glyph, Image, Path, Position,
+    render::TerminalRenderer, Cell, Error, Face, FaceAttrs, FillRule, Glyph, Image, Path, Position, UnderlineStyle,
     Size, SurfaceMut, SurfaceOwned, Terminal, TerminalCaps, TerminalCommand, TerminalEvent, TerminalSize,
     TerminalWaker, RGBA,
 };
@@ -75,9 +75,33 @@ impl Terminal for RecTerm {
 const NARROW: [u32; 6] = [0x20, 0x61, 0x62, 0x78, 0x2500, 0xE9];
 const WIDE: [u32; 3] = [0x4E16, 0x754C, 0x1F600];
 const ZERO: [u32; 2] = [0x0301, 0x07];
-const NFACES: u64 = 7;
+const NFACES: u64 = 10;
 const NIMAGES: u64 = 3;
 const NGLYPHS: u64 = 2;
+
+/// attributes that are visible on a cell without a character
+fn shows_on_blank(f: Face) -> bool {
+    f.attrs.underline() != UnderlineStyle::None || f.attrs.contains(FaceAttrs::REVERSE) || f.attrs.contains(FaceAttrs::STRIKE)
+}
+/// how a space printed in face f looks: background, plus foreground and the line/reverse attributes if any
+fn look_of_space(f: Face) -> Face {
+    if shows_on_blank(f) {
+        let mut attrs = FaceAttrs::EMPTY;
+        for a in [FaceAttrs::REVERSE, FaceAttrs::STRIKE] {
+            if f.attrs.contains(a) {
+                attrs = attrs.insert(a);
+            }
+        }
+        attrs = attrs.insert(FaceAttrs::from(f.attrs.underline()));
+        Face::new(f.fg, f.bg, attrs)
+    } else {
+        Face::new(None, f.bg, FaceAttrs::EMPTY)
+    }
+}
+/// how a cell erased (ECH) under face f looks: the background colour only
+fn look_of_erased(f: Face) -> Face {
+    Face::new(None, f.bg, FaceAttrs::EMPTY)
+}
 
 struct Pools {
     faces: Vec<Face>,
@@ -88,7 +112,7 @@ struct Pools {
 fn pools() -> Pools {
     let red = Some(RGBA::new(200, 30, 30, 255));
     let blue = Some(RGBA::new(20, 40, 160, 255));
-    let faces = vec![
+    let mut faces = vec![
         Face::default(),
         Face::new(red, None, FaceAttrs::EMPTY),
         Face::new(None, blue, FaceAttrs::EMPTY),
@@ -96,9 +120,22 @@ fn pools() -> Pools {
         // pairs that differ in one component only
         Face::new(red, None, FaceAttrs::BOLD),
         Face::new(red, blue, FaceAttrs::EMPTY),
+        // attributes that show on a blank cell
+        Face::new(None, blue, FaceAttrs::UNDERLINE),
+        Face::new(red, None, FaceAttrs::REVERSE),
+        Face::new(None, blue, FaceAttrs::STRIKE),
         // the value frame() used to initialise its tracked face with
         Face::default().with_bg(Some(RGBA::new(1, 2, 3, 255))),
     ];
+    assert_eq!(faces.len() as u64, NFACES);
+    // faces that only occur as the look of blank cells get the following indices
+    for i in 0..NFACES as usize {
+        for f in [look_of_space(faces[i]), look_of_erased(faces[i])] {
+            if !faces.contains(&f) {
+                faces.push(f);
+            }
+        }
+    }
     // pixels per cell are 20 x 10: cell sizes 1x1, 2x3, 3x2 (the last one through rounding up)
     let mk = |h: usize, w: usize, v: u8| {
         Image::from(SurfaceOwned::new_with(Size::new(h, w), |p| RGBA::new(v, (p.row * 7) as u8, (p.col * 5) as u8, 255)))
@@ -245,7 +282,7 @@ fn overlap_free(env: &mut Env, p: &Pools, s: &Surf, h: usize, w: usize) -> bool 
 
 // ---------------------------------------------------------------- running one history
 fn to_cell(p: &Pools, c: C) -> Cell {
-    let face = p.faces[c.f as usize % p.faces.len()];
+    let face = p.faces[c.f as usize % NFACES as usize];
     match c.k {
         0 => Cell::new_char(face, char::from_u32(c.v).unwrap_or(' ')),
         1 => Cell::new_image(p.images[c.v as usize % p.images.len()].clone()).with_face(face),
@@ -450,6 +487,11 @@ fn run(p: &Pools, input: &Value) -> Case {
         isizes.push(format!("({}, ({}, {}))", 1000 + 16 * (*g as u64) + *f as u64, a, b));
     }
 
+    let idx = |f: Face| p.faces.iter().position(|x| *x == f).unwrap_or(99);
+    let fsp = clist((0..p.faces.len()).map(|i| format!("({}, {})", i, idx(look_of_space(p.faces[i])))));
+    let fer = clist((0..p.faces.len()).map(|i| format!("({}, {})", i, idx(look_of_erased(p.faces[i])))));
+    let ers = clist((0..p.faces.len()).filter(|i| !shows_on_blank(p.faces[*i])).map(|i| i.to_string()));
+
     let observed = drive(p, h, w, &ops);
     let (impl_coq, impl_json, ncmds, has_ech) = match &observed {
         None => ("[[COther]]".to_string(), json!("panic"), 0usize, false),
@@ -496,8 +538,8 @@ fn run(p: &Pools, input: &Value) -> Case {
     }
     Case {
         coq: format!(
-            "Hist {} {} {} {} {} {} {}",
-            h, w, widths, clist(isizes), ops_coq, impl_coq, cbool(overlap)
+            "Hist {} {} {} {} {} {} {} {} {} {}",
+            h, w, widths, clist(isizes), fsp, fer, ers, ops_coq, impl_coq, cbool(overlap)
         ),
         json: j,
         tags,
